@@ -16,6 +16,8 @@ def register():
     import p_msgmap
     REGISTRY["C04"] = (p_msgmap.run_c04, "proof")
     REGISTRY["C05"] = (p_msgmap.run_c05, "proof")
+    import p_signtype
+    REGISTRY["C19"] = (p_signtype.run_c19, "proof")
 
 
 def main():
